@@ -34,7 +34,9 @@ Provided(d, P) == LET P2 == P \cup {n \in Names(d) : Required(d.mods[n]) \subset
 Resolvable(d) == Provided(d, {}) = Names(d)
 
 Ok(v) == [ok |-> TRUE, v |-> v]
-Err(kind) == [ok |-> FALSE, err |-> kind]
+(* alts: the error classes of all faulty parts found at that level (which one is reported first is not specified: *)
+(* submodules are kept in a hash map)                                                                            *)
+Err(kind) == [ok |-> FALSE, err |-> kind, alts |-> {kind}]
 IsErr(x) == ~x.ok
 
 (* iter_for_kardinality_access: definition kardinality dk, accessor kardinality ak *)
@@ -115,7 +117,7 @@ Arch(d, n) ==
   ELSE IF \E g \in SeqSet(m.gates) : g.k = 0 THEN Err("invalid_gate")
   ELSE LET subs0 == [i \in 1..Len(m.subs) |-> SubOf(d, m, m.subs[i])]
            e == FirstErr(subs0) IN
-       IF e # <<>> THEN e[1]
+       IF e # <<>> THEN [e[1] EXCEPT !.alts = UNION {subs0[i].alts : i \in {j \in 1..Len(subs0) : IsErr(subs0[j])}}]
        ELSE LET par == IF m.inherit = "" THEN Ok([node |-> EmptyNode, gen |-> <<>>]) ELSE Arch(d, m.inherit) IN
             IF IsErr(par) THEN par
             ELSE LET gates == SeqSet(m.gates) \cup par.v.node.gates
@@ -127,7 +129,7 @@ Arch(d, n) ==
 
 (* the set of error classes the description exhibits (several if several modules are faulty) *)
 ErrorsOf(d) == IF ~Resolvable(d) THEN {"unresolvable_dependency"}
-               ELSE LET es == {Arch(d, n).err : n \in {x \in Names(d) : IsErr(Arch(d, x))}} IN
+               ELSE LET es == UNION {Arch(d, n).alts : n \in {x \in Names(d) : IsErr(Arch(d, x))}} IN
                     IF es # {} THEN es ELSE IF d.entry \notin Names(d) THEN {"unknown_module"} ELSE {}
 
 -----------------------------------------------------------------------------
